@@ -13,8 +13,8 @@ def idpValue (idp : CrlIdp) : Asn1 :=
      | some .caCertsOnly => [Asn1.implicit 2 (.bool true)]
      | none => []))
 
-/-- the invalidity-date value (crl.rs:401-409 writes it with `write_dt_utc_or_generalized`) -/
-def invalidityDateNode (dt : DateTime) : Asn1 := writeTime dt
+/-- the invalidity-date value: always GeneralizedTime (`dt_to_generalized`) -/
+def invalidityDateNode (dt : DateTime) : Asn1 := writeGeneralized dt
 
 /-- crl.rs:364-414 -/
 def revokedNode (r : RevokedCert) : Asn1 :=
@@ -46,16 +46,27 @@ def tbsCertList (H : Hashes) (p : CrlParams) (issuer : Issuer) : Asn1 :=
         (if p.revoked.isEmpty then [] else [Asn1.seq (p.revoked.map revokedNode)]) ++
         [Asn1.explicit 0 (.seq (crlExtensions H p issuer))])
 
-/-- crl.rs:196-198: `next_update.le(&this_update)` compares instants (nanoseconds included) -/
-def crlNextUpdateInvalid (p : CrlParams) : Bool := p.nextUpdate.le p.thisUpdate
+/-- crl.rs `signed_by`: `dt_strip_nanos(next_update) <= dt_strip_nanos(this_update)`: the
+    instants truncated to whole seconds, which is what gets encoded -/
+def crlNextUpdateInvalid (p : CrlParams) : Bool :=
+  decide (p.nextUpdate.epochSeconds ≤ p.thisUpdate.epochSeconds)
 
 /-- crl.rs:207-209 -/
 def crlIssuerNotSigner (issuer : Issuer) : Bool :=
   !issuer.keyUsages.isEmpty && !issuer.keyUsages.contains .crlSign
 
+/-- the checks at the head of the CRL's `serialize_der`, in order -/
+def crlInvalid (p : CrlParams) (issuer : Issuer) : Option Err :=
+  firstErr (
+    [checkName issuer.dn] ++
+    (match p.idp with | some idp => idp.uris.map checkIa5 | none => []) ++
+    [checkTime p.thisUpdate, checkTime p.nextUpdate] ++
+    p.revoked.flatMap (fun r => checkTime r.revocationTime ::
+      (match r.invalidityDate with | some d => [checkTime d] | none => [])))
+
 def revokedPanics (r : RevokedCert) : Bool :=
   timePanics r.revocationTime ||
-  (match r.invalidityDate with | some d => timePanics d | none => false)
+  (match r.invalidityDate with | some d => genTimePanics d | none => false)
 
 def crlPanics (p : CrlParams) (issuer : Issuer) : Bool :=
   dnPanics issuer.dn || timePanics p.thisUpdate || timePanics p.nextUpdate ||
